@@ -540,3 +540,65 @@ func (s *OverrideState) Var(e int, n string) int {
 	}
 	return s.Base.Var(e, n)
 }
+
+// DecState draws every first-time query (epoch, kind, name) from a decision
+// vector (missing positions are 0); used to enumerate all decision sequences
+// of small programs depth-first. Frozen copies answer 0 for unseen keys.
+type DecState struct {
+	Dec    []int
+	Arity  []int // arity of each decision actually taken (filled during the run)
+	memo   map[string]int
+	Frozen bool
+	Unseen int // queries of a frozen state that the recording run never made
+}
+
+// NewDecState makes a recording state for the given decision vector.
+func NewDecState(dec []int) *DecState { return &DecState{Dec: dec, memo: map[string]int{}} }
+
+func (s *DecState) next(e int, kind byte, name string, arity int) int {
+	k := fmt.Sprintf("%d|%c|%s", e, kind, name)
+	if v, ok := s.memo[k]; ok {
+		return v
+	}
+	if s.Frozen {
+		s.Unseen++
+		return 0
+	}
+	d := 0
+	if len(s.Arity) < len(s.Dec) {
+		d = s.Dec[len(s.Arity)] % arity
+	}
+	s.Arity = append(s.Arity, arity)
+	s.memo[k] = d
+	return d
+}
+
+// Flag implements State.
+func (s *DecState) Flag(e int, n string) bool { return s.next(e, 'f', n, 2) == 1 }
+
+// Trainer implements State.
+func (s *DecState) Trainer(e int, n string) bool { return s.next(e, 't', n, 2) == 1 }
+
+// Var implements State (values 0..2).
+func (s *DecState) Var(e int, n string) int { return s.next(e, 'v', n, 3) }
+
+// Freeze returns a read-only view sharing the recorded answers.
+func (s *DecState) Freeze() *DecState { return &DecState{memo: s.memo, Frozen: true} }
+
+// NextDecisions advances a decision vector like an odometer over the arities
+// seen in the last run, limited to maxLen positions; ok=false when exhausted.
+func NextDecisions(dec []int, arity []int, maxLen int) ([]int, bool) {
+	n := len(arity)
+	if n > maxLen {
+		n = maxLen
+	}
+	cur := make([]int, n)
+	copy(cur, dec)
+	for i := n - 1; i >= 0; i-- {
+		if cur[i]+1 < arity[i] {
+			cur[i]++
+			return cur[:i+1], true
+		}
+	}
+	return nil, false
+}
